@@ -60,7 +60,8 @@ def eval_graph(c, sub):
                 present = True if s is None else any((a == u or b == u) and t == s for (a, b, t) in P)
                 want = po.brute_paths(P, directed, ids, u, v, s, e) if present else set()
                 try:
-                    r = al.time_respecting_paths(G, u, v, s, e)
+                    # alternate between the positional and the keyword call form
+                    r = al.time_respecting_paths(G, u, v, s, e) if (cnt['queries'] % 2) else al.time_respecting_paths(G, u, v=v, end=e, start=s, sample=1)
                 except Exception as ex:
                     viols.append(Violation(PROP, 'call', {'kind': 'raises', 'exc': type(ex).__name__, 'cls': c['cls']}, case([repr(u), repr(v), s, e]),
                                            {'graph': graphs.describe(c, sub), 'call': 'time_respecting_paths(G, %r, %r, %r, %r)' % (u, v, s, e)}))
@@ -109,12 +110,15 @@ def eval_graph(c, sub):
         ch = _Chooser(real)
         pmod.np = ch
         try:
-            for u in gnodes:
-                fullset = _flat(full.get((u, None, None), {}))
+            for u, vt in [(u, None) for u in gnodes] + [(u, w) for u in gnodes for w in nodes if w != u][:4]:
+                if vt is None:
+                    fullset = _flat(full.get((u, None, None), {}))
+                else:
+                    fullset = _flat(al.time_respecting_paths(G, u, vt))
                 for sample in (0.5, 0.34):
                     ch.answer = None
                     ch.asked = None
-                    al.time_respecting_paths(G, u, sample=sample)
+                    al.time_respecting_paths(G, u, vt, sample=sample)
                     if ch.asked is None:
                         continue
                     n, size = ch.asked
@@ -126,7 +130,7 @@ def eval_graph(c, sub):
                         cnt['queries'] += 1
                         cnt['chooser_answers'] += 1
                         try:
-                            r = al.time_respecting_paths(G, u, sample=sample)
+                            r = al.time_respecting_paths(G, u, vt, sample=sample)
                         except Exception as ex:
                             viols.append(Violation(PROP, 'sample', {'kind': 'raises', 'exc': type(ex).__name__, 'cls': c['cls']}, case([repr(u), None, None, None, sample, list(ans)]),
                                                    {'graph': graphs.describe(c, sub)}))
